@@ -389,3 +389,57 @@ func litOf(e ast.Expr) *ast.CompositeLit {
 	l, _ := e.(*ast.CompositeLit)
 	return l
 }
+
+// resolveLocal follows an identifier that is assigned exactly once in body to
+// the expression it was assigned (up to depth steps); other expressions are
+// returned as they are.
+func resolveLocal(info *types.Info, body ast.Node, e ast.Expr, depth int) ast.Expr {
+	for i := 0; i < depth; i++ {
+		id, ok := unparen(e).(*ast.Ident)
+		if !ok {
+			break
+		}
+		o := objOf(info, id)
+		if o == nil {
+			break
+		}
+		var rhs ast.Expr
+		cnt := 0
+		ast.Inspect(body, func(x ast.Node) bool {
+			switch s := x.(type) {
+			case *ast.AssignStmt:
+				if len(s.Lhs) == len(s.Rhs) {
+					for k, l := range s.Lhs {
+						if objOf(info, l) == o {
+							rhs = s.Rhs[k]
+							cnt++
+						}
+					}
+				} else {
+					for _, l := range s.Lhs {
+						if objOf(info, l) == o {
+							cnt += 2 // multi-value: not a simple alias
+						}
+					}
+				}
+			case *ast.IncDecStmt:
+				if objOf(info, s.X) == o {
+					cnt += 2
+				}
+			case *ast.ValueSpec:
+				for k, nm := range s.Names {
+					if info.Defs[nm] == o && k < len(s.Values) {
+						rhs = s.Values[k]
+						cnt++
+					}
+				}
+			}
+			return true
+		})
+		if cnt != 1 || rhs == nil {
+			break
+		}
+		e = rhs
+	}
+	return unparen(e)
+}
